@@ -224,6 +224,7 @@ func init() {
 			func(c *Ctx) { c.ruleSigChan("R-SIGCHAN") },
 			func(c *Ctx) { c.ruleRelock("R-RELOCK") },
 			func(c *Ctx) { c.ruleStartGate("R-STARTGATE") },
+			func(c *Ctx) { c.ruleReadFirst("R-READFIRST") },
 			func(c *Ctx) { c.ruleOneDecoder("R-ONEDECODER") },
 			func(c *Ctx) { c.ruleIdleCheck("R-IDLECHECK") },
 			func(c *Ctx) { c.ruleAtomic("R-ATOMIC"); c.R.Floor("R-ATOMIC", 4) },
